@@ -62,7 +62,8 @@ pub struct VerifAllocState {
     pub saved_limit: Cell<Option<usize>>,
     pub log: RefCell<Option<Vec<AllocEvent>>>,
     pub quarantine_on: Cell<bool>,
-    pub quarantine: RefCell<Vec<(usize, Layout)>>,
+    /// (address, layout, checksum of the content at the time the block was released)
+    pub quarantine: RefCell<Vec<(usize, Layout, u64)>>,
     pub quarantine_set: RefCell<HashSet<usize>>,
     pub forced_gcs: Cell<u64>,
 }
@@ -123,11 +124,32 @@ impl VerifAllocState {
             });
         }
         if self.quarantine_on.get() {
-            self.quarantine.borrow_mut().push((ptr, l));
+            let sum = unsafe { checksum(ptr, l.size()) };
+            self.quarantine.borrow_mut().push((ptr, l, sum));
             self.quarantine_set.borrow_mut().insert(ptr);
             return true;
         }
         false
+    }
+
+    /// Released blocks must never be written again: returns the first quarantined block whose
+    /// content changed since it was released
+    pub fn first_modified_quarantined_block(&self) -> Option<(usize, usize)> {
+        for (ptr, l, sum) in self.quarantine.borrow().iter() {
+            if unsafe { checksum(*ptr, l.size()) } != *sum {
+                return Some((*ptr, l.size()));
+            }
+        }
+        None
+    }
+
+    /// the quarantined block containing `addr`, if any
+    pub fn quarantined_block_containing(&self, addr: usize) -> Option<(usize, usize)> {
+        self.quarantine
+            .borrow()
+            .iter()
+            .find(|(p, l, _)| *p <= addr && addr < *p + l.size().max(1))
+            .map(|(p, l, _)| (*p, l.size()))
     }
 
     pub fn log_marker(&self, ev: AllocEvent) {
@@ -158,10 +180,20 @@ impl VerifAllocState {
 
 impl Drop for VerifAllocState {
     fn drop(&mut self) {
-        for (ptr, l) in self.quarantine.borrow_mut().drain(..) {
+        for (ptr, l, _) in self.quarantine.borrow_mut().drain(..) {
             unsafe { std::alloc::dealloc(ptr as *mut u8, l) }
         }
     }
+}
+
+unsafe fn checksum(ptr: usize, size: usize) -> u64 {
+    let bytes = std::slice::from_raw_parts(ptr as *const u8, size);
+    let mut h: u64 = 0xcbf29ce484222325;
+    for b in bytes {
+        h ^= *b as u64;
+        h = h.wrapping_mul(0x100000001b3);
+    }
+    h
 }
 
 pub type DispatchCallback = Box<dyn FnMut(&RuntimeData, u8)>;
